@@ -347,11 +347,30 @@ func (c *recorder) execute(start map[string]any, do func() error, reissue func()
 	c.ev(map[string]any{"ev": "end", "res": res, "disk": disk, "mem": mem, "err": fmt.Sprint(opErr)})
 	// the property predicates on what was observed (the trace spec sees the same observations)
 	where := fmt.Sprintf("record:%s", kind)
+	if batch, _ := start["batch"].(bool); batch {
+		where += "-batch"
+	}
 	replay := map[string]any{"recorded_run": c.run, "seed": vfutil.Seed(), "op": start}
 	if hit && opErr == nil {
 		c.rep.Violate("error-swallowed:"+where, "an injected storage error was reported as success", replay)
 	}
-	if opErr != nil && cur.key() != pre.key() {
+	if batch, _ := start["batch"].(bool); batch {
+		// AddRawRecords: all-or-nothing per record - the records committed before the failing one stay
+		done := 0
+		for _, cl := range calls {
+			if cl.Op == "commit" {
+				done++
+			}
+		}
+		if hit && done > 0 && calls[len(calls)-1].Op == "commit" {
+			done-- // the failing call was this commit (recorded, not performed)
+		}
+		if opErr != nil {
+			if d := batchAtomic(pre, cur, done, done); d != "" {
+				c.rep.Violate("Atomic:failed-op-changed-disk:"+where, fmt.Sprintf("AddRawRecords failed (%v): %s", opErr, d), replay)
+			}
+		}
+	} else if opErr != nil && cur.key() != pre.key() {
 		c.rep.Violate("Atomic:failed-op-changed-disk:"+where, fmt.Sprintf("operation failed (%v) but the durable state changed", opErr), replay)
 	}
 	if p, d := cur.durable(); p != "" {
